@@ -104,8 +104,8 @@ class _Match(Generic[AnyStr]):
                         if star:
                             at_end = m.end(i) == end
                             parts = split.split(star.strip(strip))
-                            if base is None:
-                                base = os.path.join(root, filename[:m.start(i)])
+                            # Every `globstar` capture starts at its own place in the path
+                            base = os.path.join(root, filename[:m.start(i)])
                             last_part = len(parts)
                             for j, part in enumerate(parts, 1):
                                 base = os.path.join(base, part)
